@@ -182,6 +182,7 @@ func (r *FnRun) execInstr(st *State, in ssa.Instruction, b *ssa.BasicBlock) bool
 	case *ssa.MakeMap:
 		p := r.allocObj(st, "map")
 		r.mapInit(st, p)
+		r.initGhost(st, p, x.Type(), 0)
 		st.vals[x] = refVal(p, x.Type())
 	case *ssa.MakeChan:
 		p := r.allocObj(st, "chan")
